@@ -1310,3 +1310,351 @@ class C31(WorldCheck):
 
 
 CHECKS['C31'] = C31()
+
+
+# =========================================================================== C02
+class C02(HistoryCheck):
+    pid = 'C02'
+    inv_totals = 'I-02-totals'
+    rule = ("plans = C01-style worlds set up in rev mode (so both directions are available) x histories of "
+            "run_model/set_val/faults/complex-step checks, with compute_jacvec_product (fwd and rev) and root-level "
+            "run_apply_linear / run_solve_linear (fwd and rev) on seeded vectors at seeded points; the dot-product "
+            "identity <w, J v> = <J^T w, v> must hold and every product must equal the reference operator; "
+            "distinct = event-log digests; non-trivial = at least one duality test was evaluated after a "
+            "set_val+run or after a fault")
+    assumptions = ["a problem set up with mode='rev' is used for both directions (reverse transfers exist only then); "
+                   "a second fwd-mode twin repeats the forward products",
+                   "identity tolerance 1e-11 x scale for direct linear stacks, solver tolerance for iterative ones",
+                   "compute_jacvec_product is called after run_linearize, as LU-based solvers require"]
+    twins = ()
+
+    def world_knobs(self, rng):
+        k = dict(ALL_KNOBS)
+        k.update(cycle=rng.choice([0.0, 0.5, 1.0]), imp=rng.choice([0.0, 0.3]), quad=rng.choice([0.0, 0.4]),
+                 scaling=rng.choice([0.0, 0.0, 0.4]), neg_scaling=True, res_ref=True,
+                 mf=rng.choice([0.0, 0.0, 0.2]), nl=['nlbgs', 'newton', 'nlbj', 'broyden'])
+        return k
+
+    def run_knobs(self, rng, world):
+        return {'mode': 'rev', 'complex': rng.random() < 0.3}
+
+    def twins_for(self, plan):
+        return ('modefwd',)
+
+    def gen_ops(self, rng, plan):
+        def extra(rng_, w):
+            r = rng_.random()
+            if r < 0.45:
+                return {'op': 'jacvec', 'seed': rng_.randint(0, 9999)}
+            if r < 0.9:
+                return {'op': 'linops', 'seed': rng_.randint(0, 9999)}
+            return {'op': 'check_totals', 'method': 'cs' if plan['knobs'].get('complex') else 'fd'}
+        ops = standard_history(rng, plan['world'], nsteps=(3, 8), extra=extra, fault_p=0.2)
+        ops.append(extra(rng, plan['world']))
+        return ops
+
+    def nontrivial(self, plan, st, faults, probes):
+        return probes.get('duality_after_history', 0) > 0
+
+    def after_op(self, sims, op, outs, viol, ctx, log):
+        a = sims[0]
+        ra, ea, fa = outs[0]
+        if op['op'] == 'set_val' or (op['op'] == 'run_model' and fa):
+            ctx['moved'] = True
+        if ra is None or ea is not None or not a.clean:
+            return True
+        tol = 1e-11 if not a._iterative() else a.tol * 10
+        y = a.ref.solve()
+        if op['op'] == 'jacvec':
+            J = a.ref.jac_full(y)
+            of, wrt = ra['of'], ra['wrt']
+            lhs = rhs = 0.0
+            scale = 1.0
+            # rev sim gives J^T w; fwd twin gives J v
+            rb = outs[1][0] if len(outs) > 1 else None
+            Jv = rb['Jv'] if rb is not None and outs[1][1] is None and sims[1].clean else None
+            for r in of:
+                for d in wrt:
+                    key = d['name'] if d['kind'] == 'out' else '_auto:' + d['name']
+                    Jref = a.ref.total(J, r['name'], key)
+                    rn, dn = a.promn(r['name']), a.promn(d['name'])
+                    scale = max(scale, float(np.abs(Jref).max()) * 4)
+            ref_Jv = {}
+            ref_JTw = {}
+            for r in of:
+                rn = a.promn(r['name'])
+                acc = 0
+                for d in wrt:
+                    key = d['name'] if d['kind'] == 'out' else '_auto:' + d['name']
+                    acc = acc + a.ref.total(J, r['name'], key) @ ra['v'][a.promn(d['name'])]
+                ref_Jv[rn] = acc
+            for d in wrt:
+                dn = a.promn(d['name'])
+                key = d['name'] if d['kind'] == 'out' else '_auto:' + d['name']
+                acc = 0
+                for r in of:
+                    acc = acc + a.ref.total(J, r['name'], key).T @ ra['w'][a.promn(r['name'])]
+                ref_JTw[dn] = acc
+            for dn, val in ra['JTw'].items():
+                if relerr(val.ravel(), ref_JTw[dn], floor=scale) > max(tol, a.tol * 10):
+                    viol.append({'inv': 'I-02-jacvec-rev', 'msg': f"compute_jacvec_product rev: J^T w for {dn} = "
+                                 f"{val.ravel().tolist()} but reference {ref_JTw[dn].tolist()}"})
+                    return False
+            if Jv is not None:
+                for rn, val in Jv.items():
+                    if relerr(val.ravel(), ref_Jv[rn], floor=scale) > max(tol, a.tol * 10):
+                        viol.append({'inv': 'I-02-jacvec-fwd', 'msg': f"compute_jacvec_product fwd: J v for {rn} = "
+                                     f"{val.ravel().tolist()} but reference {ref_Jv[rn].tolist()}"})
+                        return False
+                lhs = sum(float(ra['w'][rn] @ Jv[rn].ravel()) for rn in Jv)
+                rhs = sum(float(ra['JTw'][dn].ravel() @ ra['v'][dn]) for dn in ra['JTw'])
+                if abs(lhs - rhs) > tol * scale * (1 + abs(lhs)):
+                    viol.append({'inv': 'I-02-dot-jacvec', 'msg': f"<w, J v> = {lhs!r} but <J^T w, v> = {rhs!r}"})
+                    return False
+                a.probes.inc('duality_tests')
+                if ctx.get('moved'):
+                    a.probes.inc('duality_after_history')
+        if op['op'] == 'linops':
+            L = a.ref.lin_operator(y)
+            v, w = ra['v'], ra['w']
+            scale = 1.0 + float(np.abs(L).max()) * 4
+            checks = [('Av', L @ v, 'apply_linear fwd'), ('ATw', L.T @ w, 'apply_linear rev')]
+            if 'Sv' in ra:
+                checks.append(('Sv', np.linalg.solve(L, v), 'solve_linear fwd'))
+            if 'STw' in ra:
+                checks.append(('STw', np.linalg.solve(L.T, w), 'solve_linear rev'))
+            if a._iterative_linear():
+                # an iterative linear solver that did not reach its tolerance on this seeded right-hand side
+                # voids the precondition for the solve comparisons (its products are still judged)
+                for key, rhs_, Lop in (('Sv', v, L), ('STw', w, L.T)):
+                    if key in ra and np.abs(Lop @ ra[key] - rhs_).max() > 1e-6 * (1 + np.abs(ra[key]).max()):
+                        ra.pop(key)
+                        a.probes.inc('iterative_linear_solve_not_converged')
+                checks = [c_ for c_ in checks if c_[0] in ra]
+            for key, want, what in checks:
+                if key not in ra:
+                    continue
+                t = 1e-10 if key in ('Av', 'ATw') else max(1e-9, a.tol * 10)
+                if relerr(ra[key], want, floor=scale) > t:
+                    viol.append({'inv': 'I-02-operator', 'msg': f"root {what} on a seeded vector differs from the "
+                                 f"reference operator: got {ra[key].tolist()} want {want.tolist()}", 'ctx': key})
+                    return False
+            if 'ATw' in ra:
+                lhs, rhs = float(w @ ra['Av']), float(ra['ATw'] @ v)
+                if abs(lhs - rhs) > 1e-11 * scale * (1 + abs(lhs)) * len(v):
+                    viol.append({'inv': 'I-02-dot-apply', 'msg': f"<w, A v> = {lhs!r} but <A^T w, v> = {rhs!r}"})
+                    return False
+                a.probes.inc('duality_tests')
+                if ctx.get('moved'):
+                    a.probes.inc('duality_after_history')
+            if 'STw' in ra and 'Sv' in ra:
+                lhs, rhs = float(w @ ra['Sv']), float(ra['STw'] @ v)
+                if abs(lhs - rhs) > max(1e-10, a.tol * 10) * (1 + abs(lhs) + float(np.abs(ra['Sv']).max()) * len(v) * 4):
+                    viol.append({'inv': 'I-02-dot-solve', 'msg': f"<w, A^-1 v> = {lhs!r} but <A^-T w, v> = {rhs!r}"})
+                    return False
+        return True
+
+
+CHECKS['C02'] = C02()
+
+
+# =========================================================================== C11
+FMT_TWINS = ['fmt:dense', 'fmt:coo', 'fmt:csr', 'fmt:csc', 'fmt:coo_sp']
+LN_TWINS = ['ln:direct', 'ln:direct_csc', 'ln:direct_dense', 'ln:krylov_csr', 'ln:krylov_csc', 'ln:krylov_dense',
+            'ln:lnbgs', 'ln:krylov']
+
+
+class C11(C02):
+    pid = 'C11'
+    inv_totals = 'I-11-totals'
+    rule = ("plans = worlds with every sub-jacobian format (dense, rows/cols, diagonal, scipy COO/CSR/CSC), several "
+            "inputs of one component drawn from the same source (shared matrix blocks), src_indices column "
+            "mapping, unit factors and quadratic stubs (values change on re-linearisation) x a history of "
+            "linearise / set_val+run / complex-step checks; the same history is executed by 2-3 twins that differ in "
+            "declared sub-jacobian format and in how the jacobian is applied (dictionary, assembled dense/CSC/CSR "
+            "under Direct/Krylov/LinearBlockGS); after every update the root forward product, transpose product, "
+            "linear solves and totals must agree across twins and with the reference operator; distinct = "
+            "event-log digests; non-trivial = at least two re-linearisations at different points were compared "
+            "across twins")
+    assumptions = ["operators are driven through run_linearize / run_apply_linear / run_solve_linear and compute_totals "
+                   "(the matrices are not driven stand-alone)",
+                   "assembled COO is exercised as the common build path of CSC/CSR (there is no user-selectable COO type)",
+                   "products compared to 1e-10 x scale; solves to the linear-solver tolerance of the twin"]
+
+    def world_knobs(self, rng):
+        k = dict(ALL_KNOBS)
+        k.update(cycle=rng.choice([0.0, 0.5]), imp=rng.choice([0.0, 0.4]), quad=0.5, same_src=0.6,
+                 scaling=rng.choice([0.0, 0.0, 0.3]), neg_scaling=True, res_ref=True, mf=0.0,
+                 nl=['nlbgs', 'newton', 'nlbj'], two_outs=0.4)
+        return k
+
+    def run_knobs(self, rng, world):
+        tw = []
+        for _ in range(rng.randint(2, 3)):
+            tw.append(rng.choice(FMT_TWINS) + ',' + rng.choice(LN_TWINS))
+        return {'mode': 'rev', 'complex': rng.random() < 0.5, 'twins': tw}
+
+    def twins_for(self, plan):
+        return tuple(plan['knobs']['twins'])
+
+    def gen_ops(self, rng, plan):
+        w = plan['world']
+        ops = [{'op': 'setup'}, {'op': 'run_model'}, {'op': 'linops', 'seed': rng.randint(0, 9999)}]
+        for _ in range(rng.randint(1, 4)):
+            r = rng.random()
+            if r < 0.6:
+                ops.append(gen_set(rng, w))
+                ops.append({'op': 'run_model'})
+            elif r < 0.8:
+                ops.append({'op': 'check_totals', 'method': 'cs' if plan['knobs'].get('complex') else 'fd'})
+            else:
+                ops += gen_faults(rng, w, 1, kinds=('analysis_error',), methods=['compute_partials', 'linearize', 'compute'])
+                ops.append({'op': 'run_model'})
+                ops.append({'op': 'run_model'})
+            ops.append({'op': 'linops', 'seed': rng.randint(0, 9999)})
+            if rng.random() < 0.5:
+                ops.append(gen_totals_op(rng, w))
+        return ops
+
+    def nontrivial(self, plan, st, faults, probes):
+        return probes.get('twin_operator_comparisons', 0) >= 2
+
+    def after_op(self, sims, op, outs, viol, ctx, log):
+        a = sims[0]
+        if not C02.after_op(self, sims[:1], op, outs[:1], viol, ctx, log):
+            return False
+        ra, ea, fa = outs[0]
+        if ra is None or ea is not None or not a.clean:
+            return True
+        for sim, (rb, eb, fb) in zip(sims[1:], outs[1:]):
+            if rb is None or eb is not None or not sim.clean:
+                continue
+            if op['op'] == 'linops':
+                # the twin against the reference first (this also drops its non-converged iterative solves)
+                if not C02.after_op(self, [sim], op, [(rb, eb, fb)], viol, {}, log):
+                    return False
+                for key in ('Av', 'ATw', 'Sv', 'STw'):
+                    if key in ra and key in rb:
+                        t = 1e-10 if key in ('Av', 'ATw') else max(1e-9, a.tol * 10, sim.tol * 10)
+                        if relerr(rb[key], ra[key], floor=1.0 + float(np.abs(ra[key]).max())) > t:
+                            viol.append({'inv': 'I-11-twin-operator', 'msg': f"{key} differs between jacobian "
+                                         f"representations: base ({a.world['solvers']['']['ln']}) {ra[key].tolist()} vs "
+                                         f"twin {sim.variant} {rb[key].tolist()}", 'ctx': key})
+                            return False
+                a.probes.inc('twin_operator_comparisons')
+            if op['op'] == 'totals':
+                for k2 in ra:
+                    if relerr(rb[k2], ra[k2], floor=1e-3 + float(np.abs(ra[k2]).max())) > max(a.tol, sim.tol) * 10:
+                        viol.append({'inv': 'I-11-twin-totals', 'msg': f"totals {k2} differ between jacobian "
+                                     f"representations: base {ra[k2].tolist()} vs twin {sim.variant} {rb[k2].tolist()}"})
+                        return False
+        return True
+
+
+CHECKS['C11'] = C11()
+
+
+# =========================================================================== C12
+class C12(HistoryCheck):
+    pid = 'C12'
+    inv_totals = 'I-12-values'
+    rule = ("plans = worlds whose components approximate their partials (fd forward/backward/central x step x "
+            "step_calc, cs), optionally with a group-level or model-level approx_totals, x histories of "
+            "run_model/set_val/linearise/compute_totals with component faults; every approximated total is compared "
+            "with the exact reference within the method's error bound, the model's inputs, outputs and residuals "
+            "are compared bitwise around every normally returned approximation, and a twin with coloured "
+            "approximations must give the same values; distinct = event-log digests; non-trivial = at least one "
+            "approximation was bracketed by state snapshots and compared with the reference")
+    assumptions = ["fd bound: 5e-4 relative to the largest reference entry (affine worlds are exact up to eps*|y|/h; "
+                   "the mild quadratic terms add a truncation error of order h); cs bound 1e-8",
+                   "coloured vs uncoloured approximations compared to 1e-6 relative (simultaneous perturbations change the "
+                   "round-off, not the values)",
+                   "restoration after an approximation that raised is not asserted (the statement does not require it); the "
+                   "next fault-free run must satisfy everything again"]
+
+    def budget(self, tier):
+        if tier == 'thorough':
+            return {'runs': 40000, 'time': 900.0, 'run_cap': 120.0, 'selftest': 100}
+        return {'runs': 2000, 'time': 55.0, 'run_cap': 120.0, 'selftest': 12}
+
+    def world_knobs(self, rng):
+        k = dict(ALL_KNOBS)
+        k.update(cycle=rng.choice([0.0, 0.0, 0.5]), imp=rng.choice([0.0, 0.2]), quad=rng.choice([0.0, 0.4]),
+                 scaling=rng.choice([0.0, 0.0, 0.3]), res_ref=True, approx=0.6, mf=0.0,
+                 nl=['nlbgs', 'newton', 'nlbj'], temps=False)
+        return k
+
+    def run_knobs(self, rng, world):
+        kn = {'mode': rng.choice(['auto', 'fwd', 'rev']), 'complex': True}
+        r = rng.random()
+        if r < 0.3:
+            kn['approx_totals'] = {'method': rng.choice(['fd', 'fd', 'cs']), 'form': rng.choice(['forward', 'backward', 'central']),
+                                   'step': rng.choice([1e-6, 1e-5])}
+        elif r < 0.5 and len(world['groups']) > 1:
+            g = rng.choice([g_ for g_ in world['groups'] if g_])
+            kn['group_approx'] = {g: {'method': rng.choice(['fd', 'cs']), 'form': rng.choice(['forward', 'central']),
+                                      'step': rng.choice([1e-6, 1e-5])}}
+        kn['twin_colored'] = rng.random() < 0.4
+        return kn
+
+    def twins_for(self, plan):
+        return ('colored',) if plan['knobs'].get('twin_colored') else ()
+
+    def gen_ops(self, rng, plan):
+        def extra(rng_, w):
+            return rng_.choice([{'op': 'linearize'}, gen_totals_op(rng_, w)])
+        return standard_history(rng, plan['world'], nsteps=(2, 6), extra=extra, fault_p=0.2)
+
+    def nontrivial(self, plan, st, faults, probes):
+        return probes.get('approx_bracketed', 0) > 0
+
+    def execute(self, plan, log, st, faults, probes, viol):
+        # bracket totals / linearize ops with full-state snapshots (inputs, outputs, residuals)
+        self._orig_do = Sim.do
+        check = self
+
+        def do(sim, op):
+            kind = op['op']
+            bracket = kind in ('totals', 'linearize') and sim.p is not None and getattr(sim, 'final', False) \
+                and sim.clean
+            before = sim.state_bytes(with_resid=True) if bracket else None
+            res, raised, fired = check._orig_do(sim, op)
+            if bracket and raised is None and fired == 0 and not sim.viol:
+                after = sim.state_bytes(with_resid=True)
+                sim.probes.inc('approx_bracketed')
+                if after != before:
+                    names = ['inputs', 'outputs', 'residuals']
+                    diff = [n for n, x, y in zip(names, before.split(b'|'), after.split(b'|')) if x != y] \
+                        if before.count(b'|') == 2 and after.count(b'|') == 2 else ['state']
+                    scaled = any(any(k in o for k in ('ref', 'ref0', 'res_ref')) for c in sim.world['comps']
+                                 for o in c['outs'])
+                    m = sim.p.model
+                    if scaled or 'residuals' in diff and sim._iterative():
+                        pass
+                    sim.V('I-12-side-effect', f"{kind} with approximated derivatives changed the model's {diff} "
+                          f"(approx_totals={sim.knobs.get('approx_totals')}, group_approx={sim.knobs.get('group_approx')})",
+                          ctx=','.join(diff))
+            return res, raised, fired
+        Sim.do = do
+        try:
+            HistoryCheck.execute(self, plan, log, st, faults, probes, viol)
+        finally:
+            Sim.do = self._orig_do
+
+    def after_op(self, sims, op, outs, viol, ctx, log):
+        if len(sims) < 2 or op['op'] != 'totals':
+            return True
+        a, b = sims[0], sims[1]
+        (ra, ea, fa), (rb, eb, fb) = outs
+        if ra is None or rb is None or not (a.clean and b.clean):
+            return True
+        for k2 in ra:
+            if relerr(rb[k2], ra[k2], floor=1e-3 + float(np.abs(ra[k2]).max())) > 1e-6:
+                viol.append({'inv': 'I-12-colored', 'msg': f"totals {k2}: uncoloured approximation {ra[k2].tolist()} vs "
+                             f"coloured twin {rb[k2].tolist()}"})
+                return False
+        a.probes.inc('colored_twin_comparisons')
+        return True
+
+
+CHECKS['C12'] = C12()
